@@ -341,6 +341,20 @@ CHECKS["C08"] = {
         H("c01.VH_step_tee", {"MAXB": 3000}, {"MAXB": 5000}, covers=["recorder ran", "bytes buffered at handler time"], weight=8, validate=False),
         H("c01.VH_prefetch_step", {}, {}, covers=["read through a pooled chunk"]),
         H("c13.VH_listener_wrap", {"CONNS": 2, "L": 3}, {"CONNS": 2, "L": 4}, covers=["handler consumed the buffered bytes and wrapped", "delivered and read", "delivered after a handler consumed bytes"], weight=4, **_envonly),
+    ] + [
+        # race mode: two goroutines through one provisioned matcher instance, same symbolic stream
+        H("c08.VH_" + m, {"params": {"SAME": 1}, "race": True}, {"params": {"SAME": 1, "L": lt}, "race": True, "preempt": 1}, variant="race",
+          covers=["matched concurrently"] + ([] if m in ("http",) else ["a stream matches"]), weight=w, **_envonly)
+        for m, lt, w in [("ssh", 8, 1), ("xmpp", 54, 2), ("postgres", 14, 1), ("socks4", 10, 1), ("socks5", 8, 1), ("proxyproto", 14, 1), ("regexp", 7, 1),
+                         ("wireguard", 148, 1), ("tls", 57, 4), ("rdp", 16, 2), ("winbox", 40, 2), ("openvpn", 58, 3), ("http", 16, 1)]
+    ] + [
+        # independent streams and one pre-emption: verdicts equal the matcher's verdict on each stream alone
+        H("c08.VH_" + m, {"params": {"SAME": 0, "L": lq}, "race": True, "preempt": 1}, {"params": {"SAME": 0, "L": lt}, "race": True, "preempt": 2}, variant="indep",
+          covers=["matched concurrently"], weight=3, **_envonly)
+        for m, lq, lt in [("regexp", 6, 7), ("socks5", 4, 6), ("ssh", 4, 6)]
+    ] + [
+        H("c08.VH_select", {"params": {}, "race": True}, {"params": {}, "race": True, "preempt": 1}, covers=["selected concurrently"], weight=2, **_envonly),
+        H("c08.VH_router", {"params": {"L": 3}, "race": True}, {"params": {"L": 3}, "race": True, "preempt": 1}, covers=["routed concurrently"], weight=3, **_envonly),
     ],
     "level_text": "cross-talk half only: bounded model checking of pooled matching-buffer lifetime - two or three connections go through the listener wrapper, the first one is handed over (its prefetched bytes still unread) before the next one takes a buffer from the pool and prefetches; every delivered connection must read exactly its own client's bytes. The tee branch/main-chain pair is checked the same way (each reads the whole stream once). The data-race half of the property is NOT decided",
     "level_note": "data races (plain accesses under the real scheduler) are outside a symbolic executor that pre-empts only at synchronisation operations and assumes data-race freedom elsewhere; see DESIGN section 5 C08. One race (round_robin's plain read of its atomic counter) was found by reading and repaired",
